@@ -110,6 +110,10 @@ class HaltReason(Enum):
     BREAKPOINT = 5
 
 
+# the largest dynamic array (in cells) DIM will allocate
+MAX_DYNAMIC_ARRAY_CELLS = 16 * 1024 * 1024
+
+
 class MemorySegment:
     def __init__(self, size):
         self.size = size
@@ -656,6 +660,17 @@ class QvmCpu:
             bounds.append((lbound, ubound))
 
         bounds.reverse()
+
+        n_cells = element_size
+        for lbound, ubound in bounds:
+            n_cells *= ubound - lbound + 1
+        if n_cells > MAX_DYNAMIC_ARRAY_CELLS:
+            # more than the machine is willing to allocate (QBASIC:
+            # "Subscript out of range" / "Out of memory"); the host
+            # must not be asked for gigabytes
+            self.trap(
+                TrapCode.INDEX_OUT_OF_RANGE,
+                msg=f'Array of {n_cells} cells is too large')
 
         array = Array(element_size, bounds)
         ref = Reference(segment=array, index=0)
